@@ -664,4 +664,34 @@ theorem exportGridWith_rectangular (c : Codec V) (d : Bool) (fs : FSpan) (db : B
 
 end
 
+
+section
+variable {V : Type}
+
+/-- a file without data rows is rejected as soon as it has a block (`data_rows[0]`: IndexError) -/
+theorem import_without_data_rows (c : Codec V) (d : Bool) (Bs : List (Block V)) (hne : Bs ≠ [])
+    (hnames : ∀ b ∈ Bs, GoodNames b.members) (hper : ∀ b ∈ Bs, b.periods.length ≤ 0) :
+    importGrid c d (zipRowsN (headerRows d + 0) (Bs.map (Block.rows c d 0))) = .error .badInput := by
+  rw [grid_eq c d 0 Bs hper]
+  have hdata : dataRowsOf c 0 Bs = [] := by simp [dataRowsOf]
+  have hraw : ∃ raw rest, blockIterator (Bs.flatMap Block.nameRow) = raw :: rest := by
+    rw [blockIterator, scan_export Bs hnames 0]
+    cases Bs with
+    | nil => exact absurd rfl hne
+    | cons b bs => exact ⟨_, _, rfl⟩
+  obtain ⟨raw, rest, hr⟩ := hraw
+  cases d with
+  | true =>
+    have hrect : ([Bs.flatMap Block.descRow].all (fun r => r.length == (Bs.flatMap Block.nameRow).length)) = true := by
+      simp [flatMap_rows_length Bs hnames]
+    simp only [hdata, List.append_nil, if_true, importGrid, hrect, Bool.not_true, Bool.false_eq_true, if_false, hr,
+      List.mapM_cons, decodeBlock, bind, Except.bind]
+    rfl
+  | false =>
+    simp only [hdata, List.append_nil, Bool.false_eq_true, if_false, importGrid, List.all_nil, Bool.not_true, hr,
+      List.mapM_cons, decodeBlock, bind, Except.bind]
+    rfl
+
+end
+
 end IrisVerif.Grid
